@@ -616,6 +616,22 @@ Definition fr_divexact (n d : fr) : res fr :=
     else if nn mod dd =? 0 then Ok (of_mpz (nn / dd)) else Err Gmp_inexact
   end.
 
+(* after the repair (commit 0dce736, proposed_fixes/C15_divexact_int_min.diff): the pair
+   (INT_MIN, -1) is excluded from the word path *)
+Definition fr_divexact_fixed (n d : fr) : res fr :=
+  let gmp :=
+    let nn := Qnum (mpq_of n) in let dd := Qnum (mpq_of d) in
+    if dd =? 0 then Err Gmp_inexact
+    else if nn mod dd =? 0 then Ok (of_mpz (nn / dd)) else Err Gmp_inexact in
+  match n, d with
+  | Word num _, Word den _ =>
+    if negb ((num =? WORD_MIN) && (den =? -1)) then
+      if negb (den =? 0) then q <-- lift (sdiv32 num den) ;; Ok (of_word q)
+      else Ok (of_word 0)
+    else gmp
+  | _, _ => gmp
+  end.
+
 Definition fr_round_to_int (n : fr) : res fr :=
   h <-- of_word_uword 1 2 ;;
   r <-- fr_add n h ;;
